@@ -110,6 +110,7 @@ pub fn flt_value(n: i64, e: i64, tag: &str) -> f64 {
         "inf" => f64::INFINITY,
         "-inf" => f64::NEG_INFINITY,
         "nan" => f64::NAN,
+        "-0" => -0.0,
         _ => (n as f64) * 2f64.powi(e as i32),
     }
 }
@@ -125,7 +126,7 @@ pub fn tm_of_f64(f: f64) -> Tm {
     if f == f64::INFINITY { return Tm::Flt(0, 0, "inf".into()); }
     if f == f64::NEG_INFINITY { return Tm::Flt(0, 0, "-inf".into()); }
     if f == 0.0 {
-        return if f.is_sign_negative() { Tm::Bad("flt -0".into()) } else { Tm::Flt(0, 0, "".into()) };
+        return if f.is_sign_negative() { Tm::Flt(0, 0, "-0".into()) } else { Tm::Flt(0, 0, "".into()) };
     }
     let bits = f.to_bits();
     let sign: i64 = if (bits >> 63) == 1 { -1 } else { 1 };
